@@ -2,7 +2,8 @@
 (***************************************************************************)
 (* Source model, scope layer: a program as a scope tree with binders       *)
 (* (module-level name, functions, parameters, locals, a closure, a class,  *)
-(* a field, methods, a comprehension variable, a lambda parameter) and     *)
+(* a field, methods, a comprehension variable, a lambda parameter, names    *)
+(* first bound inside if / for blocks) and                                 *)
 (* references.  Which binder a reference denotes is determined by Python's *)
 (* LEGB rule on the scope tree (class scope is not visible from methods) - *)
 (* a function of which binders SHARE an identifier, never of how the       *)
@@ -26,9 +27,9 @@ Parent == [mod |-> "mod", F1 |-> "mod", G1 |-> "F1", C1 |-> "mod", init |-> "C1"
 IsClass(s) == s = "C1"
 
 \* ---- binders: [name, scope where the name is bound]
-Binders == {"s1", "f1", "p1", "p2", "l1", "g1", "q1", "c1", "a1", "p3", "m1", "p4", "l2", "e1", "f2", "p5", "o1", "k1", "w1"}
+Binders == {"s1", "f1", "p1", "p2", "l1", "n1", "i1", "g1", "q1", "c1", "a1", "p3", "m1", "p4", "l2", "e1", "f2", "p5", "o1", "k1", "w1"}
 ScopeOf == [s1 |-> "mod", f1 |-> "mod", c1 |-> "mod", f2 |-> "mod",
-            p1 |-> "F1", p2 |-> "F1", l1 |-> "F1", g1 |-> "F1",
+            p1 |-> "F1", p2 |-> "F1", l1 |-> "F1", n1 |-> "F1", i1 |-> "F1", g1 |-> "F1",
             q1 |-> "G1",
             a1 |-> "C1", m1 |-> "C1",
             p3 |-> "init",
@@ -46,7 +47,8 @@ Refs == { [id |-> 1, at |-> "F1", to |-> "p1"], [id |-> 2, at |-> "F1", to |-> "
           [id |-> 10, at |-> "comp", to |-> "p4"], [id |-> 11, at |-> "M1", to |-> "p4"], [id |-> 12, at |-> "M1", to |-> "l2"],
           [id |-> 13, at |-> "F2", to |-> "c1"], [id |-> 14, at |-> "F2", to |-> "p5"], [id |-> 15, at |-> "F2", to |-> "o1"],
           [id |-> 16, at |-> "F2", to |-> "f1"], [id |-> 17, at |-> "F2", to |-> "s1"], [id |-> 18, at |-> "lam", to |-> "w1"],
-          [id |-> 19, at |-> "lam", to |-> "p5"], [id |-> 20, at |-> "F2", to |-> "k1"] }
+          [id |-> 19, at |-> "lam", to |-> "p5"], [id |-> 20, at |-> "F2", to |-> "k1"],
+          [id |-> 21, at |-> "F1", to |-> "n1"], [id |-> 22, at |-> "F1", to |-> "i1"] }
 
 \* ---- LEGB resolution of slot x from scope s under assignment id : binders -> slots
 RECURSIVE Resolve(_, _, _, _)
@@ -79,15 +81,19 @@ Ren(id) == [b \in Binders |-> <<"x", id[b]>>]
 BindsBySlotOnly == \A id \in Assignments : \A r \in Refs : Resolve(Ren(id), Ren(id)[r.to], r.at, TRUE) = Resolve(id, id[r.to], r.at, TRUE)
 
 \* ---- namings: slot -> string.  Pools are sequences; slot k (in a fixed order of the binders) takes pool[k]
-Order == <<"s1", "f1", "p1", "p2", "l1", "g1", "q1", "c1", "a1", "p3", "m1", "p4", "l2", "e1", "f2", "p5", "o1", "k1", "w1">>
+Order == <<"s1", "f1", "p1", "p2", "l1", "n1", "i1", "g1", "q1", "c1", "a1", "p3", "m1", "p4", "l2", "e1", "f2", "p5", "o1", "k1", "w1">>
 Pools == [
-  base    |-> <<"zqa", "zqb", "zqc", "zqd", "zqe", "zqf", "zqg", "Zqh", "zqi", "zqj", "zqk", "zql", "zqm", "zqn", "zqo", "zqp", "zqq", "zqr", "zqs">>,
-  prefix  |-> <<"v", "v_", "v__", "vv", "v_v", "vv_", "v_vv", "Vv", "v_a", "v_ab", "v_abc", "va", "vab", "vabc", "va_", "v_b", "vb", "v_bb", "vbb">>,
-  dunder  |-> <<"a__b", "a__", "a__b__c", "b__a", "a_b", "ab__", "a___b", "A__b", "b__", "c__a", "c__", "a__c", "c__b", "b__c", "ab__c", "a__bc", "bc__a", "cb__a", "abc__">>,
-  words   |-> <<"var", "closure", "name", "block", "list_comp", "function", "args", "Class", "field", "parameter", "method", "argument", "local", "comp_for", "entry", "param", "value", "lambda_", "elem">>,
-  lengths |-> <<"x", "xxxxxxxxxxxxxxxxxxxxxxxx", "y", "yyyyyyyyyyyyyyyy", "z", "zzzzzzzzzzzz", "w", "Wwwwwwww", "u", "uuuuuuuuuuuuuuuuuuuuuuuuuuuuuuuu", "t", "tttt", "r", "rrrrrrrr", "q", "qqqqqq", "o", "oo", "k">>,
-  digits  |-> <<"x1", "x10", "x11", "x2", "x20", "x100", "x01", "X1", "x1_", "x_1", "x1_0", "x12", "x21", "x121", "x112", "x3", "x30", "x31", "x13">>,
-  reverse |-> <<"zqs", "zqr", "zqq", "zqp", "zqo", "zqn", "zqm", "Zql", "zqk", "zqj", "zqi", "zqh", "zqg", "zqf", "zqe", "zqd", "zqc", "zqb", "zqa">> ]
+  base    |-> <<"zqa", "zqb", "zqc", "zqd", "zqe", "zqf", "zqg", "Zqh", "zqi", "zqj", "zqk", "zql", "zqm", "zqn", "zqo", "zqp", "zqq", "zqr", "zqs", "zqt", "zqu">>,
+  prefix  |-> <<"v", "v_", "v__", "vv", "v_v", "vv_", "v_vv", "Vv", "v_a", "v_ab", "v_abc", "va", "vab", "vabc", "va_", "v_b", "vb", "v_bb", "vbb", "v_c", "vc">>,
+  dunder  |-> <<"a__b", "a__", "a__b__c", "b__a", "a_b", "ab__", "a___b", "A__b", "b__", "c__a", "c__", "a__c", "c__b", "b__c", "ab__c", "a__bc", "bc__a", "cb__a", "abc__", "d__a", "a__d">>,
+  words   |-> <<"var", "closure", "name", "block", "list_comp", "function", "args", "Class", "field", "parameter", "method", "argument", "local", "comp_for", "entry", "param", "value", "lambda_", "elem", "decl_var", "scope">>,
+  lengths |-> <<"x", "xxxxxxxxxxxxxxxxxxxxxxxx", "y", "yyyyyyyyyyyyyyyy", "z", "zzzzzzzzzzzz", "w", "Wwwwwwww", "u", "uuuuuuuuuuuuuuuuuuuuuuuuuuuuuuuu", "t", "tttt", "r", "rrrrrrrr", "q", "qqqqqq", "o", "oo", "k", "j", "jjjjjjjjjj">>,
+  digits  |-> <<"x1", "x10", "x11", "x2", "x20", "x100", "x01", "X1", "x1_", "x_1", "x1_0", "x12", "x21", "x121", "x112", "x3", "x30", "x31", "x13", "x4", "x40">>,
+  sufchain |-> <<"a", "ba", "cba", "dcba", "edcba", "fedcba", "gfedcba", "hgfedcba", "ihgfedcba", "jihgfedcba", "kjihgfedcba", "lkjihgfedcba", "mlkjihgfedcba", "nmlkjihgfedcba", "onmlkjihgfedcba", "ponmlkjihgfedcba", "qponmlkjihgfedcba", "rqponmlkjihgfedcba", "srqponmlkjihgfedcba", "tsrqponmlkjihgfedcba", "utsrqponmlkjihgfedcba">>,
+  sufchainrev |-> <<"utsrqponmlkjihgfedcba", "tsrqponmlkjihgfedcba", "srqponmlkjihgfedcba", "rqponmlkjihgfedcba", "qponmlkjihgfedcba", "ponmlkjihgfedcba", "onmlkjihgfedcba", "nmlkjihgfedcba", "mlkjihgfedcba", "lkjihgfedcba", "kjihgfedcba", "jihgfedcba", "ihgfedcba", "hgfedcba", "gfedcba", "fedcba", "edcba", "dcba", "cba", "ba", "a">>,
+  prechain |-> <<"a", "ab", "abc", "abcd", "abcde", "abcdef", "abcdefg", "abcdefgh", "abcdefghi", "abcdefghij", "abcdefghijk", "abcdefghijkl", "abcdefghijklm", "abcdefghijklmn", "abcdefghijklmno", "abcdefghijklmnop", "abcdefghijklmnopq", "abcdefghijklmnopqr", "abcdefghijklmnopqrs", "abcdefghijklmnopqrst", "abcdefghijklmnopqrstu">>,
+  prechainrev |-> <<"abcdefghijklmnopqrstu", "abcdefghijklmnopqrst", "abcdefghijklmnopqrs", "abcdefghijklmnopqr", "abcdefghijklmnopq", "abcdefghijklmnop", "abcdefghijklmno", "abcdefghijklmn", "abcdefghijklm", "abcdefghijkl", "abcdefghijk", "abcdefghij", "abcdefghi", "abcdefgh", "abcdefg", "abcdef", "abcde", "abcd", "abc", "ab", "a">>,
+  reverse |-> <<"zqs", "zqr", "zqq", "zqp", "zqo", "zqn", "zqm", "Zql", "zqk", "zqj", "zqi", "zqh", "zqg", "zqf", "zqe", "zqd", "zqc", "zqb", "zqa", "zzb", "zza">> ]
 IndexOf(b) == CHOOSE i \in DOMAIN Order : Order[i] = b
 NameOf(id, pool, b) == Pools[pool][IndexOf(id[b])]          \* the name of binder b = pool entry of its slot
 
@@ -99,6 +105,12 @@ Tokens == <<
   B("s1"), T(": int = 3\n\n"),
   T("def "), B("f1"), T("("), B("p1"), T(": int, "), B("p2"), T(": int) -> int:\n"),
   T("\t"), B("l1"), T(" = "), B("p1"), T(" + "), B("s1"), T("\n"),
+  \* names first bound inside nested blocks (function-level in Python, block-level declarations in the output)
+  T("\tif "), B("p1"), T(" > 0:\n"),
+  T("\t\t"), B("n1"), T(" = "), B("l1"), T(" + 1\n"),
+  T("\t\t"), B("l1"), T(" = "), B("n1"), T(" * 2\n"),
+  T("\tfor "), B("i1"), T(" in range("), B("p2"), T("):\n"),
+  T("\t\t"), B("l1"), T(" = "), B("l1"), T(" + "), B("i1"), T("\n"),
   T("\tdef "), B("g1"), T("("), B("q1"), T(": int) -> int:\n"),
   T("\t\treturn "), B("q1"), T(" + "), B("l1"), T(" + "), B("p2"), T("\n\n"),
   T("\treturn "), B("g1"), T("("), B("l1"), T(")\n\n"),
